@@ -461,32 +461,26 @@ def _mapper(run, P):
             if isinstance(x, ast.Assign) and len(x.targets) == 1 and isinstance(x.targets[0], ast.Name) \
                     and isinstance(x.value, ast.Call) and dotted(x.value.func) == "self.rec":
                 kinds.add(x.targets[0].id)
-        for t in [n for n in ast.walk(m.node) if isinstance(n, ast.If)]:
-            end = terminal(t.body)
-            if not isinstance(end, ast.Raise) or end.exc is None:
-                continue
-            exc = ast.unparse(end.exc)
+        from .util import path_conditions
+        for rz in [n for n in ast.walk(m.node) if isinstance(n, ast.Raise) and n.exc is not None]:
+            exc = ast.unparse(rz.exc)
             if "UnableToInferKind" in exc:
                 continue
-            mentions = any(
+            pc = path_conditions(m.node, rz)
+            about_kind = [t for t, v in pc if any(
                 (isinstance(x, ast.Name) and x.id in kinds)
                 or (isinstance(x, ast.Call) and dotted(x.func) == "self.rec")
-                for x in ast.walk(t.test))
-            if not mentions:
+                for x in ast.walk(ast.parse(t, mode="eval")))]
+            if not about_kind:
                 continue
-            conj = t.test.values if isinstance(t.test, ast.BoolOp) and isinstance(t.test.op, ast.And) \
-                else [t.test]
-            gated = any(dotted(c) == "self.check" for c in conj)
-            if not gated:
-                # nested under an enclosing 'if self.check:'
-                par = _parent_if(m.node, t)
-                while par is not None and not gated:
-                    pc = par.test.values if isinstance(par.test, ast.BoolOp) \
-                        and isinstance(par.test.op, ast.And) else [par.test]
-                    gated = any(dotted(c) == "self.check" for c in pc) and _inside_body(par, t)
-                    par = _parent_if(m.node, par)
-            run.ob("C14.provisional", m, t, gated,
-                   construct=f"{name}: raise {exc.split('(')[0]} on '{norm(t.test, 70)}' only under self.check",
+            gated = ("self.check", True) in pc or any(
+                v and "self.check" in [norm(c_) for c_ in (
+                    ast.parse(t, mode="eval").body.values
+                    if isinstance(ast.parse(t, mode="eval").body, ast.BoolOp)
+                    and isinstance(ast.parse(t, mode="eval").body.op, ast.And) else [])]
+                for t, v in pc)
+            run.ob("C14.provisional", m, rz, gated,
+                   construct=f"{name}: raise {exc.split('(')[0]} on '{about_kind[0][:70]}' only under self.check",
                    why="during a sweep an operand may still have a provisional kind "
                        "(a sum seen before its array operand is known): rejecting it "
                        "then makes inference fail for some statement orders only")
@@ -517,28 +511,29 @@ def _kind_attrs(run, P):
                  and dotted(x.value.func) == "self.rec"}
         if not kinds:
             continue
-        g = CFG(m.node)
+        from .util import path_conditions
         for k in sorted(kinds):
-            uses = [nd for nd in g.nodes if nd.ast is not None and any(
-                isinstance(x, ast.Attribute) and x.attr == "is_real_valued"
-                and isinstance(x.value, ast.Name) and x.value.id == k
-                for fr in own_fragments(nd) for x in walk_fragment(fr))]
+            uses = [s_ for s_ in ast.walk(m.node) if isinstance(s_, (ast.Return, ast.Assign, ast.Expr, ast.AugAssign))
+                    and any(isinstance(x, ast.Attribute) and x.attr == "is_real_valued"
+                            and isinstance(x.value, ast.Name) and x.value.id == k for x in ast.walk(s_))]
             if not uses:
                 continue
-            guards = [nd for nd in g.nodes if nd.kind == "test" and isinstance(nd.label, ast.If)
-                      and isinstance(nd.ast, ast.UnaryOp) and isinstance(nd.ast.op, ast.Not)
-                      and isinstance(nd.ast.operand, ast.Call)
-                      and dotted(nd.ast.operand.func) == "isinstance"
-                      and dotted(nd.ast.operand.args[0]) == k
-                      and {dotted(t_) for t_ in (nd.ast.operand.args[1].elts
-                                                 if isinstance(nd.ast.operand.args[1], ast.Tuple)
-                                                 else [nd.ast.operand.args[1]])} <= {"Array", "Scalar"}
-                      and _always_leaves(nd.label.body)]
-            ok = bool(guards) and not g.always_preceded(uses, guards)
+            ok = True
+            for u_ in uses:
+                pc = path_conditions(m.node, u_)
+                sure = False
+                for t, v in pc:
+                    e_ = ast.parse(t, mode="eval").body
+                    if v and isinstance(e_, ast.Call) and dotted(e_.func) == "isinstance" \
+                            and dotted(e_.args[0]) == k:
+                        types = e_.args[1].elts if isinstance(e_.args[1], ast.Tuple) else [e_.args[1]]
+                        if {dotted(t_) for t_ in types} <= {"Array", "Scalar"}:
+                            sure = True
+                ok = ok and sure
             n += 1
-            run.ob("C14.provisional", m, uses[0].ast, ok,
-                   construct=f"{name}: <kind>.is_real_valued is read only after "
-                             f"'if not isinstance(<kind>, Array/Scalar): <raise on every path>'",
+            run.ob("C14.provisional", m, uses[0], ok,
+                   construct=f"{name}: <kind>.is_real_valued is read only where "
+                             f"isinstance(<kind>, Array/Scalar) is known to hold",
                    why="during a sweep the operand may hold a provisional kind without "
                        "that attribute (the Integer of a partial sum): AttributeError "
                        "aborts inference for some statement orders only, where deferring "
